@@ -383,3 +383,12 @@ package generator
 //@ safety
 //@ modifies nothing
 //@ ensures len(arg) == 0 ==> result == "Empty"
+
+//@ func (*schemaGenContext).schemaValidations
+//@ props C02
+//@ requires sg != nil
+//@ ensures result.Required == sg.Required
+//@ ensures vs_sameNumberValidations(result.SchemaValidations, sg.Schema.Validations()) && vs_sameStringValidations(result.SchemaValidations, sg.Schema.Validations()) && vs_sameArrayValidations(result.SchemaValidations, sg.Schema.Validations()) && vs_sameObjectValidations(result.SchemaValidations, sg.Schema.Validations()) && vs_sameEnum(result.SchemaValidations, sg.Schema.Validations())
+//@ ensures vs_anyConstraint(&sg.Schema) ==> result.HasValidations
+//@ ensures sg.Required && sg.Schema.Default == nil && !sg.Schema.ReadOnly ==> result.HasValidations
+//@ ensures result.HasSliceValidations == (sg.Schema.MaxItems != nil || sg.Schema.MinItems != nil || sg.Schema.UniqueItems || len(sg.Schema.Enum) > 0)
